@@ -399,7 +399,8 @@ def build(s: dict, ch: Optional[dict] = None, rng: Optional[random.Random] = Non
         sp.ignore = (rng.randrange(256), rng.randrange(65536))
         sp.placeholders = (rng.randrange(2 ** 32), rng.randrange(2 ** 32))
         sp.reserved = junk(84)
-        sp.size_override = rng.randrange(2 ** 32)
+        # the header's file-size field is informational: smaller than, equal to, larger than the real length
+        sp.size_override = rng.choice([0, 4, 100, 127, 128, 129, rng.randrange(1, 600), rng.randrange(2 ** 32), 2 ** 32 - 1])
     return sp
 
 
